@@ -1,5 +1,6 @@
-"""C17 — RPC errors reach the caller as structured errors for every error text (pure part:
-TryExpandError, RpcErrorToNative, the tables, the decision logic of tryToProcessErr)."""
+"""C17 — RPC errors reach the caller as structured errors for every error text (theorems: TryExpandError,
+RpcErrorToNative, the tables, the decision logic of tryToProcessErr; delivery through the real request path is
+exercised by the c17.rpc operations)."""
 import os
 
 import vlib
@@ -28,7 +29,8 @@ RULE = ("operations: every row of specificErrors (regenerated from the source) a
         "prefix-only, overlapping prefix/suffix, prefix of one row with suffix of another; every catalogued name "
         "and its X replaced by a number; int32 codes incl. negative and extreme; random texts with % verbs and raw "
         "bytes; random digit strings of 1..22 digits in every family; tryToProcessErr on a client connected to "
-        "loopback listeners (configured / unconfigured / non-numeric / other errors). distinct = distinct operation "
+        "loopback listeners (configured / unconfigured / non-numeric / other errors); rpc_error answers through the real "
+        "request path against the scripted peer (c17.rpc). distinct = distinct operation "
         "lines; each is compared with the Lean model and judged by the independent oracle of the property text")
 
 GEN_LEAN = os.path.join(vlib.LEAN, "Mtv", "Gen", "ErrTables.lean")
@@ -57,8 +59,10 @@ def regenerate(ctx):
 
 def run(ctx):
     ctx.assumptions += [
-        "pure part only: delivery of the rpc_error to the caller of the request it names, and the actual reconnect + "
-        "re-issue against a peer, are checked on the shared client machine (C09/C17 end-to-end), not here",
+        "delivery of the rpc_error to the caller of the request it names (c17.rpc operations: the real client "
+        "against the scripted peer of the client machine, plain / packed / in containers, next to ordinary answers) "
+        "is judged by the Go trace oracle; the theorems of this file are about the pure "
+        "part (tables, expansion, decision logic)",
         "strconv.Atoi, strings.HasPrefix/HasSuffix/TrimPrefix/TrimSuffix and fmt.Sprintf (verbs %v %d %s, %%, "
         "EXTRA/MISSING/NOVERB artefacts, one operand) are modelled by hand; agreement with the Go library is sampled "
         "by the correspondence, not proved",
